@@ -20,7 +20,7 @@ def rw_ops(sess, rng, nops, allow_indep=True, allow_varm=True):
             # agreement, scalar varn -> var1 path); mixing them is examined under C08, not here.
             if np_ > 1 and v.nd == 0:
                 r = rng.below(np_)
-                sess.emit('* begin_indep %d' % f)
+                sess.begin_indep()
                 sess.one_access('put', 'i', v, start, count, stride, who=str(r))
                 sess.emit('* end_indep %d' % f)
                 sess.emit('* sync %d' % f)
@@ -80,7 +80,7 @@ def rw_ops(sess, rng, nops, allow_indep=True, allow_varm=True):
                     form = rng.choice(['vara', 'vars', 'varn']) if all(t == 1 for t in stride) else 'vars'
                 sess.one_access('get', 'c', v, start, count, stride, forget=True, form=form)
         elif c < 85 and allow_indep:   # independent section
-            sess.emit('* begin_indep %d' % f)
+            sess.begin_indep()
             r = rng.below(np_)      # one active rank per section: unsynchronised accesses of
             for __ in range(rng.range(1, 3)):   # different ranks to the same data would race
                 vv = rng.choice(s.vars)
